@@ -187,6 +187,37 @@ Proof.
 Qed.
 Print Assumptions C19_call_answered_no_exception_refuted.
 
+(* the order inside finish(): the mailbox is closed, drained and disconnected
+   BEFORE post_stop starts.  Whenever post_stop is about to run or running (it
+   has not logged its end: the trace ends with pre_stop), the receiver is gone,
+   nothing but late pushes is queued, and every accepted message already had its
+   reply port used or dropped — the caller of a call that was still queued has
+   its NoReply, so post_stop may wait for that caller without deadlock *)
+Theorem C19_queued_calls_released_before_post_stop : forall c es s x,
+  steps (init c) es = Some s -> pc s = PPostStop x ->
+  rx s = false /\ closed s = true /\ queue s = late s /\
+  (exists t a, tr s = t ++ [LPreStop a] /\
+     ((t = [LPreStart true] /\ handled s = []) \/
+      (t = [LPreStart true; LPostStart false] /\ handled s = []) \/
+      t = LPreStart true :: LPostStart true :: map LHandle (handled s))) /\
+  forall m, In m (accepted s) -> In m (released s) \/ In m (late s).
+Proof. exact queued_calls_released_before_post_stop. Qed.
+Print Assumptions C19_queued_calls_released_before_post_stop.
+
+Theorem C19_post_stop_after_drop : forall s ok s',
+  step s (EPostStop ok) = Some s' -> exists x, pc s = PPostStop x.
+Proof. exact post_stop_after_drop. Qed.
+Print Assumptions C19_post_stop_after_drop.
+
+(* the same schedule as in C19_call_answered_nonvacuous, stopped where post_stop
+   is waiting: the queued call w2 is already released *)
+Example C19_released_before_post_stop_nonvacuous :
+  exists s, steps (init 2) (hang_trace ++ [EDrain; EDropRx]) = Some s /\
+            pc s = PPostStop XStopped /\ released s = [w1; w2] /\ handled s = [w1] /\
+            tr s = [LPreStart true; LPostStart true; LHandle w1; LPreStop true].
+Proof. eexists. split; [vm_compute; reflexivity|]. vm_compute. repeat split. Qed.
+Print Assumptions C19_released_before_post_stop_nonvacuous.
+
 (* ---------------------------------------------------------------------- *)
 (* names                                                                    *)
 
@@ -214,6 +245,25 @@ Theorem C19_names_unique : forall es r a b n,
   kfind a (tokens r) = Some n -> kfind b (tokens r) = Some n -> a = b.
 Proof. exact names_unique. Qed.
 Print Assumptions C19_names_unique.
+
+(* the reservation is what excludes a second spawn of the name: while an attempt
+   holds it — pre_start still running (not yet activated) or later — every other
+   reservation is refused, and the refusal leaves the registry, hence the
+   holder's registration, untouched *)
+Theorem C19_names_reserved_excludes : forall es r a n b,
+  rsteps rinit es = Some r -> kfind a (tokens r) = Some n ->
+  rstep r (RReserve b n true) = None /\
+  (forall r', rstep r (RReserve b n false) = Some r' -> r' = r /\ kfind a (tokens r') = Some n).
+Proof. exact reserved_excludes. Qed.
+Print Assumptions C19_names_reserved_excludes.
+
+Example C19_names_window_nonvacuous :
+  exists r, rsteps rinit [RReserve 0 7 true; RReserve 1 7 false; RLookup 7 None; RActivate 0;
+                          RReserve 2 7 false; RLookup 7 (Some 0)] = Some r /\
+            rsteps rinit [RReserve 0 7 true; RReserve 1 7 true] = None /\
+            kfind 0 (tokens r) = Some 7 /\ kfind 1 (tokens r) = None.
+Proof. eexists. split; [vm_compute; reflexivity|]. vm_compute. repeat split. Qed.
+Print Assumptions C19_names_window_nonvacuous.
 
 (* a lookup returns only the actor that holds the name *)
 Theorem C19_names_lookup_is_holder : forall es r n a,
